@@ -107,6 +107,30 @@ def wide_scenarios(rng, quick):
     return sc
 
 
+def widemask_scenarios(rng, quick):
+    """real-width ranges from arbitrary masks: every octet of the mask drawn from {00, ff, f0, 0f, seeded}, so that zero octets
+    are followed by non-zero ones, plus the all-ones and all-zero masks; probes at and around the two ends"""
+    sc = []
+    for t, n in TYPES.items():
+        bits = 8 * n
+        top = (1 << bits) - 1
+        for _ in range(12 if quick else 200):
+            mb = [rng.choice([0x00, 0xff, 0xf0, 0x0f, 0x00, 0xff, rng.randrange(256)]) for _ in range(n)]
+            if rng.randrange(6) == 0:
+                mb = [0xff] * n
+            m = int.from_bytes(bytes(mb), "big")
+            a = rng.getrandbits(bits)
+            first, last = a & m, a | (top ^ m)
+            if first > last:
+                continue
+            pr = {first, last, a, (first + last) // 2, 0, top}
+            for d in (1, 2, 255, 256, 65536):
+                pr |= {first - d, last + d, first + d, last - d}
+            pr |= {rng.getrandbits(bits) for _ in range(3)}
+            sc.append({"kind": "widemask", "t": t, "a": tobytes(a, n), "m": tobytes(m, n), "probes": [tobytes(x, n) for x in sorted(pr) if 0 <= x <= top]})
+    return sc
+
+
 def text_types(s, i, quick):
     """each string goes to the parser of its own family; to the two others for every string in thorough, every 4th in quick"""
     own = s["mode"]
@@ -194,7 +218,7 @@ def run(tier):
         s["types"] = text_types(s, i, quick)
     cmps = cmp_scenarios(rng, 48 if quick else 64)
     rts = rt_scenarios(rng, 200 if quick else 6000)
-    wides = wide_scenarios(rng, quick)
+    wides = wide_scenarios(rng, quick) + widemask_scenarios(rng, quick)
     post = [{"kind": "postinc", "W": W, "k": "pair", "a": 1, "b": 4, "t": t} for t in TYPES]
     p = pipeline(W)
     p.push(post, "postinc", ["--batch", "1", "--scen-timeout", "20"])
